@@ -226,6 +226,19 @@ theorem C18_all_or_nothing_multi_nosubs (env : Env) (fs : FS) (i : Input) (e : E
             simp [hw] at h
   · exact C18_all_or_nothing_single env fs i e (by simpa using hm) h hio
 
+/-- the open finding is confined to multi-file mode with at least one sub-file: whenever a failing save (other
+    than the OS failing in the middle of a write) has changed anything, it ran in multi-file mode and had
+    sub-files to write -/
+theorem C18_changed_on_failure_only_multifile_with_subs (env : Env) (fs : FS) (i : Input) (e : Err)
+    (h : (save env fs i).1 = .error e) (hio : e ≠ .io) (hch : (save env fs i).2 ≠ fs) :
+    i.multifile = true ∧ i.subs ≠ [] := by
+  constructor
+  · cases hm : i.multifile with
+    | true => rfl
+    | false => exact absurd (C18_all_or_nothing_single env fs i e hm h hio) hch
+  · intro hs
+    exact hch (C18_all_or_nothing_multi_nosubs env fs i e hs h hio)
+
 /-- an invalid configuration never touches a file, in both modes (validation precedes every open) -/
 theorem C18_invalid_never_writes (env : Env) (fs : FS) (i : Input)
     (hinv : if i.multifile then i.validateOk = false else ∃ e, i.dump = .fail e) :
@@ -278,7 +291,8 @@ theorem C18_success_writes_target (env : Env) (fs : FS) (i : Input) (h : (save e
           exact ⟨s, rfl, by rw [writeFile_ok _ _ _ _ h]; exact get_put_same _ _ _⟩
 
 /-- C18_success_writes (sub-files): after a successful multi-file save every sub-config file holds exactly its
-    serialised text, and every `save_path_content` file holds the content its source had before the save —
+    serialised text, and every `save_path_content` file holds the content its source had before the save
+    (its source may be the destination itself, not one of the other files written) —
     provided no two written files share a name (sub-files are written under their BASENAME next to the target;
     see the collision witnesses below) -/
 theorem C18_success_writes_subs (env : Env) (fs : FS) (i : Input) (hm : i.multifile = true)
@@ -286,7 +300,7 @@ theorem C18_success_writes_subs (env : Env) (fs : FS) (i : Input) (hm : i.multif
     (hmain : i.path ∉ i.subs.map (·.path)) :
     ∀ s ∈ i.subs,
       (s.kind = .cfg → ∃ t, s.text = .text t ∧ (save env fs i).2.get s.path = some t) ∧
-      (s.kind = .content → (∀ r ∈ i.subs, s.src ≠ r.path) →
+      (s.kind = .content → (∀ r ∈ i.subs, r.path ≠ s.path → s.src ≠ r.path) →
         ∃ t, fs.get s.src = some t ∧ (save env fs i).2.get s.path = some t) := by
   unfold save at *
   split at h
@@ -323,13 +337,19 @@ theorem C18_success_writes_subs_needs_distinct :
                        subs := [{ path := "x.yaml", text := .text "x: 5\n" }, { path := "x.yaml", text := .text "y: 6\n" }] }
     (save {} [] i).1 = .ok () ∧ (save {} [] i).2.get "x.yaml" = some "y: 6\n" := by decide
 
-/-- a `save_path_content` file whose source lies in the target directory is copied onto itself: the
-    destination is opened (truncated) before the source is read, the save SUCCEEDS and the content is gone -/
-theorem C18_path_content_self_copy_empties :
+/-- a `save_path_content` file whose source already lies in the target directory is copied onto itself: the save
+    succeeds and the content is intact (fix 1bcbda4: the source is read before the destination is opened) -/
+theorem C18_path_content_self_copy_keeps :
     let i : Input := { path := "main.yaml", overwrite := true, dump := .text "pth: file.txt\n",
                        subs := [{ path := "file.txt", kind := .content, src := "file.txt" }] }
     (save {} [("file.txt", "precious content")] i).1 = .ok () ∧
-    (save {} [("file.txt", "precious content")] i).2.get "file.txt" = some "" := by decide
+    (save {} [("file.txt", "precious content")] i).2.get "file.txt" = some "precious content" := by decide
+
+/-- regression example of the PRE-FIX order of that step (open, then read, then write; defect F15s): the step
+    succeeds and the file is empty -/
+theorem C18_path_content_self_copy_empties_old_order :
+    subStepContentOld [("file.txt", "precious content")] { path := "file.txt", kind := .content, src := "file.txt" }
+      = (.ok (), [("file.txt", "")]) := by decide
 
 /-- whatever happens in multi-file mode, a failing save (other than the OS failing in the middle of the final
     write) does not touch the target itself — what the open finding leaves behind are sub-files only -/
@@ -422,11 +442,14 @@ example :
                                     wr := { writeOk := false } }
       = (.error .io, [("c.yaml", "")]) := by decide
 
-/-- a `save_path_content` sub-file is opened before its content is read: a failing read leaves it empty -/
+/-- a `save_path_content` sub-file whose source cannot be read fails before its destination is opened -/
 example :
     let i : Input := { path := "main.yaml", overwrite := true, dump := .text "m",
                        subs := [{ path := "file.txt", kind := .content, src := "elsewhere/file.txt", readOk := false }] }
     save {} [("file.txt", "content"), ("elsewhere/file.txt", "new")] i
-      = (.error .os, [("file.txt", ""), ("elsewhere/file.txt", "new")]) := by decide
+      = (.error .os, [("file.txt", "content"), ("elsewhere/file.txt", "new")]) := by decide
+
+/-- regression examples of the pre-fix orders of the target write (open, then dump; defects F15 / F15m) -/
+example : openThenWrite [("c.yaml", "a: 1")] "c.yaml" (.fail .invalid) {} = (.error .invalid, [("c.yaml", "")]) := by decide
 
 end Jap.Props.C18
